@@ -39,8 +39,8 @@ PROP_WORLDS = {
     "C05": [("broker", 1.0)],
     "C15": [("broker", 1.0)],
     "C06": [("data", 1.0)],
-    "C12": [("clock", 0.8), ("session", 0.2)],
-    "C13": [("clock", 0.8), ("session", 0.2)],
+    "C12": [("clock", 1.0)],
+    "C13": [("clock", 1.0)],
     "C16": [("signal", 0.5), ("session", 0.5)],
     "C07": [("pair", 1.0)],
     "C08": [("session", 1.0)],
